@@ -33,8 +33,8 @@ BIG = {
     "hh": [(100, 1000, 5), (20, 64, 4)],            # (number of hitters, width, depth)
     "st": [(20, 1000, 5), (5, 50, 3)],              # (threshold, width, depth)
     "bits": [32771, 65541, 524309],                # Bitarray sizes just past 4 KiB, 8 KiB, 64 KiB of storage
-    "cko": [(20000, 4, 500, True), (500, 4, 500, False), (1500, 2, 300, False)],           # > 65536 slots; nearly full with max_swaps > 128
-    "ccko": [(1024, 4, 500, True), (500, 4, 500, False), (20000, 4, 500, True)],           # >= 1024 buckets with automatic expansion
+    "cko": [(20000, 4, 500, True), (500, 4, 500, False), (1000, 3, 300, True), (1500, 2, 300, False)],   # > 65536 slots; nearly full with max_swaps > 128; odd bucket size
+    "ccko": [(1024, 4, 500, True), (40000, 4, 500, False), (500, 4, 500, False), (1000, 3, 300, True)],   # >= 1024 buckets with automatic expansion; > 131072 bins
     "qf": [(8, True), (7, False), (8, False), (7, False), (8, False), (7, False), (9, False), (9, True)],   # dense, nearly full tables: long wrapping clusters
 }
 
@@ -101,7 +101,7 @@ class Rec:
             self.nkeys = min(est, 12000) if big else rnd.randint(40, 160)
             self.posfn = lambda key: [h % m for h in self.obj.hashes(key)]
         elif kind == "cms":
-            w, d = self.cfg if big else rnd.choice([(50, 3), (211, 5), (1000, 4), (64, 8)])
+            w, d = self.cfg if big else rnd.choice([(50, 3), (211, 5), (1000, 4), (64, 8), (8, 3), (16, 5), (30, 4)])
             self.args = dict(width=w, depth=d, hash_function=hf)
             self.obj = P.CountMinSketch(**self.args)
             tr.update(w=w, d=d)
@@ -142,7 +142,7 @@ class Rec:
             self.obj = cls(capacity=cap, bucket_size=bs, max_swaps=ms, auto_expand=auto, finger_size=self.fs)
             tr.update(m=cap, k=bs, auto=auto)
             if big:
-                self.nkeys = {20000: 45000, 500: 2100, 1024: 16000, 1500: 3100}[cap]
+                self.nkeys = {20000: 45000, 500: 2100, 1024: 16000, 1500: 3100, 1000: 5000, 40000: 30000}[cap]
             else:
                 self.nkeys = rnd.randint(30, 120)
             mask = (1 << (8 * self.fs)) - 1
@@ -314,10 +314,19 @@ class Rec:
     def run_long(self, nev):
         P, rnd, kind, keys, nkeys = self.P, self.rnd, self.kind, self.keys, self.nkeys
         out = self.out
+        hot = None
+        if kind in ("cbloom", "cms") and nev > 20 and rnd.random() < 0.7:   # a hot key whose counters creep across a storage-width mark (2^8, 2^15, 2^16) a few units at a time
+            hot = rnd.randrange(nkeys)
+            a0 = rnd.choice([256, 32768, 32768, 32768, 65536]) - rnd.randint(20, 45)
+            ret = self.obj.add(keys[hot], a0)
+            out[hot] = a0
+            self.emit("add", [(hot, a0)], ret=ret, probe_idx=[hot])
         for step in range(nev):
             i = rnd.randrange(nkeys)
+            if hot is not None and rnd.random() < 0.35:
+                i = hot
             key = keys[i]
-            r = rnd.random()
+            r = rnd.random() if i != hot else 0.5
             full = step % 23 == 22 or step == nev - 1
             pi = [i] + [rnd.randrange(nkeys) for _ in range(3)]
             try:
@@ -336,13 +345,14 @@ class Rec:
                         out[i] = out.get(i, 0) + 1
                         self.emit("add", [(i, 1)], probe_idx=pi, full=full)
                 elif kind in ("cbloom", "cms"):
-                    a = rnd.choice([1, 1, 2, 3, 7])
+                    # with a creeping hot key every other amount stays small, so that the first crossing of the mark is the creeping one
+                    a = rnd.choice([1, 1, 2, 3, 7]) if (rnd.random() < 0.9 or hot is not None) else rnd.choice([200, 32760, 33000, 65500, 66000])
                     if r < 0.3 and out.get(i, 0) > 0:
                         a = rnd.randint(1, out[i])
                         ret = self.obj.remove(key, a)
                         out[i] -= a
                         self.emit("rem", [(i, a)], ret=ret, probe_idx=pi, full=full)
-                    elif r < 0.33:
+                    elif 0.3 <= r < (0.33 if hot is None else 0.305):
                         self.reload()
                         self.emit("rt", [], probe_idx=pi, full=full)
                     else:
@@ -601,7 +611,7 @@ class Rec:
                 for j in batch:
                     a = 1
                     if kind in ("cbloom", "cms"):
-                        a = rnd.choice([1, 1, 2, 5])
+                        a = rnd.choice([1, 1, 2, 5]) if rnd.random() < 0.97 else rnd.choice([250, 32700, 32767, 40000, 65530, 70000])   # hot keys: counters cross 2^8, 2^15, 2^16
                         self.obj.add(keys[j], a)
                     elif kind in ("ebf", "rbf"):
                         a = 0
@@ -694,6 +704,15 @@ class Rec:
                     elif ev["op"] == "clear":
                         mem.clear()
                 self.hcheck(open(self.path, "rb").read() == bytes(mem), "C11.close_equals_inmemory.scale", bits=self.tr["m"])
+                if self.big:   # C19 at scale: clear() on the reopened on-disk filter = a freshly created one (file included)
+                    g = self.P.BloomFilterOnDisk(self.path, hash_function=self.hf)
+                    g.clear()
+                    fresh = self.P.BloomFilterOnDisk(self.path + ".fresh", **self.args)
+                    same = bytes(g) == bytes(fresh) and g.elements_added == 0
+                    g.close()
+                    fresh.close()
+                    same = same and open(self.path, "rb").read() == open(self.path + ".fresh", "rb").read()
+                    self.hcheck(same, "C19.clear_fresh.scale", kind="disk", bits=self.tr["m"])
             except Exception as exc:  # noqa
                 self.hcheck(False, "C11.close_raises.scale", raised=repr(exc))
         if self.kind in ("cko", "ccko"):
@@ -758,6 +777,8 @@ def run(focus, tier, seed):
     n_long, nev, n_big = (2, 120, 1) if tier == "quick" else (25, 300, 6)
     if tier == "quick" and len(kinds) > 5:
         n_long = 1
+    if tier == "quick" and len(kinds) <= 2:
+        n_long = 6
     jobs = []
     for kind in kinds:
         if focus not in ("C05", "C11", "C12", "C15", "C19"):
@@ -765,7 +786,7 @@ def run(focus, tier, seed):
                 jobs.append((seed, kind, len(jobs), False, nev))
         cfgs = BIG[kind]
         if tier == "quick":   # few kinds in focus: every big configuration; many kinds: the first (threshold-critical) ones
-            cfgs = cfgs if len(kinds) <= 3 else cfgs[:2] if kind in ("cko", "ccko", "bloom", "qf") else cfgs[:1]
+            cfgs = cfgs if len(kinds) <= 4 else cfgs[:2] if kind in ("cko", "ccko", "bloom", "qf") else cfgs[:1]
         for cfg in cfgs:
             jobs.append((seed, kind, len(jobs), True, 0, cfg))
     with ProcessPoolExecutor(max_workers=min(14, len(jobs)), mp_context=multiprocessing.get_context("forkserver")) as ex:
